@@ -84,6 +84,7 @@ enum ModuleStatus {
         cycle_root: Module,
         ancestor_index: usize,
         async_evaluation_order: Option<usize>,
+        pending_async_dependencies: usize,
     },
     EvaluatingAsync {
         environment: Gc<DeclarativeEnvironment>,
@@ -1242,6 +1243,7 @@ impl SourceTextModule {
                 cycle_root: module_self.clone(),
                 ancestor_index: index,
                 async_evaluation_order: None,
+                pending_async_dependencies: 0,
             },
             _ => unreachable!("already asserted that this state is `Linked`. "),
         });
@@ -1349,11 +1351,16 @@ impl SourceTextModule {
             {
                 let ModuleStatus::Evaluating {
                     async_evaluation_order,
+                    pending_async_dependencies: pending,
                     ..
                 } = &mut *self.status.borrow_mut()
                 else {
                     unreachable!("self should still be in the evaluating state")
                 };
+
+                // [[PendingAsyncDependencies]] is a field of *this* module: it must survive until the
+                // cycle root pops the module off the stack (step 16), possibly many frames later.
+                *pending = pending_async_dependencies;
 
                 // a. Assert: module.[[AsyncEvaluationOrder]] is unset.
                 debug_assert!(async_evaluation_order.is_none());
@@ -1402,6 +1409,8 @@ impl SourceTextModule {
                             top_level_capability,
                             cycle_root,
                             async_evaluation_order,
+                            // the popped module's own count, not the count of the cycle root
+                            pending_async_dependencies,
                             context,
                             ..
                         } => if let Some(async_evaluation_order) = async_evaluation_order {
